@@ -150,6 +150,20 @@ func (w *World) runStage(st *Stage) bool {
 			return false
 		}
 		ss.steps++
+		if st.Quiet && w.Idle() && pol.EnvWhenIdle && w.EnvOps != nil {
+			// a fair environment actor (e.g. the children's own controller) acts before the clock moves
+			if ops := w.EnvOps(w); len(ops) > 0 {
+				w.step++
+				w.Store.Step = w.step
+				op := ops[w.T.Pick(len(ops), "env")]
+				w.logf("env %s", op.Name)
+				op.Do(w)
+				w.settle()
+				w.checkInvariants()
+				ss.idleRun = 0
+				continue
+			}
+		}
 		if st.Quiet && w.Idle() {
 			// nothing to do: move the clock, in growing strides, but never past the window
 			w.step++
